@@ -16,7 +16,12 @@ from term_image.image import common as _common
 from term_image.renderable import Frame, Renderable, RenderArgs
 from term_image.renderable import _renderable as _rmod
 
-FILLS = {"space": " ", "star": "*", "empty": ""}
+# the universe of one-column fills (the same table as props/c05.FILL_STR): one code point, empty, and
+# SEVERAL code points occupying one column (combining sequences, joiner / variation selector, SGR-wrapped)
+FILLS = {"space": " ", "star": "*", "empty": "",
+         "comb": "e\u0301", "comb2": "o\u0302\u0323", "zwj": "+\u200d", "vs": "#\ufe0e",
+         "rev": "\x1b[7m \x1b[27m",
+         "bgblank": "\x1b[48;2;10;20;30m \x1b[0m", "fgglyph": "\x1b[38;2;200;100;0m+\x1b[0m"}
 
 
 class Still(Renderable):
